@@ -201,6 +201,100 @@ func vfC26GenBR(r *vfRand) []BranchRepos {
 	return l
 }
 
+// vfC26Safe runs an encoder under recover(): a panic inside MarshalBinary is an observation (oracle failure with the
+// value), not the end of the harness.
+func vfC26Safe(f func() ([]byte, error)) (enc []byte, err error, pan string) {
+	defer func() {
+		if x := recover(); x != nil {
+			pan = fmt.Sprint(x)
+		}
+	}()
+	enc, err = f()
+	return
+}
+
+func vfC26Abbr(s string) any {
+	if len(s) <= 64 {
+		return s
+	}
+	return map[string]any{"len": len(s), "prefix": s[:16]}
+}
+
+func vfC26SetReplay(set map[string]struct{}) map[string]any {
+	ks := vfSortedKeys(set)
+	var out []any
+	for i, k := range ks {
+		if i >= 40 {
+			break
+		}
+		out = append(out, vfC26Abbr(k))
+	}
+	return map[string]any{"codec": "FileNameSet.MarshalBinary (stringSetEncode)", "nil_set": set == nil, "n_keys": len(ks), "keys": out}
+}
+
+func vfC26BRReplay(l []BranchRepos) map[string]any {
+	var out []any
+	for i, br := range l {
+		if i >= 40 {
+			break
+		}
+		e := map[string]any{"Branch": vfC26Abbr(br.Branch)}
+		if br.Repos != nil {
+			e["cardinality"] = br.Repos.GetCardinality()
+			e["serialized_size"] = br.Repos.GetSerializedSizeInBytes()
+			if br.Repos.GetCardinality() <= 16 {
+				e["repos"] = br.Repos.ToArray()
+			}
+		}
+		out = append(out, e)
+	}
+	return map[string]any{"codec": "BranchesRepos.MarshalBinary (branchesReposEncode)", "n": len(l), "list": out}
+}
+
+// directed values, part of every run: key / branch-name lengths and element counts crossing the 1- and 2-byte varint
+// boundaries; bitmap blobs whose serialized size crosses 127/128 (array container: 16 + 2*cardinality bytes).
+func vfC26DirectedSets() []map[string]struct{} {
+	var out []map[string]struct{}
+	for _, l := range []int{127, 128, 16383, 16384} {
+		out = append(out, map[string]struct{}{strings.Repeat("k", l): {}, "x": {}})
+	}
+	for _, n := range []int{127, 128, 129, 16383, 16384} {
+		set := map[string]struct{}{}
+		for j := 0; j < n; j++ {
+			set[fmt.Sprintf("f%d", j)] = struct{}{}
+		}
+		out = append(out, set)
+	}
+	out = append(out, nil, map[string]struct{}{}, map[string]struct{}{"": {}})
+	return out
+}
+
+func vfC26DirectedBRs() [][]BranchRepos {
+	bmN := func(k int) *roaring.Bitmap {
+		bm := roaring.New()
+		for j := 0; j < k; j++ {
+			bm.Add(uint32(j * 3))
+		}
+		return bm
+	}
+	var out [][]BranchRepos
+	for _, l := range []int{127, 128, 16383, 16384} {
+		out = append(out, []BranchRepos{{Branch: strings.Repeat("b", l), Repos: bmN(2)}})
+	}
+	for _, k := range []int{0, 55, 56, 57} { // serialized size 126 / 128 / 130
+		out = append(out, []BranchRepos{{Branch: "HEAD", Repos: bmN(k)}})
+	}
+	for _, n := range []int{127, 128, 129} {
+		var l []BranchRepos
+		for j := 0; j < n; j++ {
+			l = append(l, BranchRepos{Branch: fmt.Sprintf("r%d", j), Repos: bmN(j % 3)})
+		}
+		out = append(out, l)
+	}
+	out = append(out, nil, []BranchRepos{})
+	return out
+}
+
 func vfC26RefEncodeSet(keys []string, countOverride int64) []byte {
 	out := []byte{1}
 	if countOverride >= 0 {
@@ -350,32 +444,85 @@ func TestVerifC26(t *testing.T) {
 			ps = append(ps, vfC26Pending{codec: codec, kind: kind, in: b, class: "random"})
 		}
 	}
-	for i := 0; i < n; i++ {
+	dSets, dBRs := vfC26DirectedSets(), vfC26DirectedBRs()
+	nd := len(dSets)
+	if len(dBRs) > nd {
+		nd = len(dBRs)
+	}
+	encPanics := 0
+	for i := 0; i < nd+n; i++ {
 		// ---- FileNameSet
-		set := vfC26GenSet(r)
-		fs := FileNameSet{Set: set}
-		enc, err := (&fs).MarshalBinary()
-		if err != nil {
-			vfOracleFail("stringset:encode-error", "MarshalBinary returned an error", map[string]any{"err": err.Error()})
+		var set map[string]struct{}
+		cls := "valid"
+		haveSet := true
+		if i < nd {
+			cls = "directed"
+			if i < len(dSets) {
+				set = dSets[i]
+			} else {
+				haveSet = false
+			}
 		} else {
-			ps = append(ps, vfC26Pending{codec: "stringset", kind: 10, in: enc, class: "valid", expSet: set, hasExp: true})
-			addGarbage("stringset", 0, enc)
-			if r.Chance(30) { // duplicates and boundary counts from the reference encoder
-				ks := vfSortedKeys(set)
-				ks = append(ks, ks...)
-				ps = append(ps, vfC26Pending{codec: "stringset", kind: 0, in: vfC26RefEncodeSet(ks, -1), class: "valid-dup", expSet: set, hasExp: true})
-				body := vfC26RefEncodeSet(ks, -1)
-				ps = append(ps, vfC26Pending{codec: "stringset", kind: 0, in: vfC26RefEncodeSet(ks, int64(len(body)-2+r.Intn(3)-1)), class: "count-boundary"})
+			set = vfC26GenSet(r)
+		}
+		if haveSet {
+			fs := FileNameSet{Set: set}
+			enc, err, pan := vfC26Safe((&fs).MarshalBinary)
+			if pan != "" {
+				encPanics++
+				if encPanics <= 12 {
+					rp := vfC26SetReplay(set)
+					rp["panic"] = pan
+					vfOracleFail("stringset:encode:panic", "FileNameSet.MarshalBinary panics on a valid value: "+pan, rp)
+				}
+				ref := vfC26RefEncodeSet(vfSortedKeys(set), -1)
+				if len(ref) <= 2500 { // kind 20: the model's checked encoder (generated capacity) must panic too
+					vfCase(cTuple(cN(20), "(@nil N)", "[]", cSome(vfC26SetTerm(set))), fmt.Sprintf("20:%x", ref), true, []string{"stringset/encode-panic"},
+						map[string]any{"codec": "stringset", "value": vfC26SetReplay(set), "class": "encode-panic"})
+				}
+				ps = append(ps, vfC26Pending{codec: "stringset", kind: 0, in: ref, class: "ref", expSet: set, hasExp: true})
+				addGarbage("stringset", 0, ref)
+			} else if err != nil {
+				rp := vfC26SetReplay(set)
+				rp["err"] = err.Error()
+				vfOracleFail("stringset:encode-error", "MarshalBinary returned an error", rp)
+			} else {
+				ps = append(ps, vfC26Pending{codec: "stringset", kind: 10, in: enc, class: cls, expSet: set, hasExp: true})
+				addGarbage("stringset", 0, enc)
+				if r.Chance(30) { // duplicates and boundary counts from the reference encoder
+					ks := vfSortedKeys(set)
+					ks = append(ks, ks...)
+					ps = append(ps, vfC26Pending{codec: "stringset", kind: 0, in: vfC26RefEncodeSet(ks, -1), class: "valid-dup", expSet: set, hasExp: true})
+					body := vfC26RefEncodeSet(ks, -1)
+					ps = append(ps, vfC26Pending{codec: "stringset", kind: 0, in: vfC26RefEncodeSet(ks, int64(len(body)-2+r.Intn(3)-1)), class: "count-boundary"})
+				}
 			}
 		}
 		// ---- BranchesRepos
-		l := vfC26GenBR(r)
-		br := BranchesRepos{List: l}
-		enc, err = br.MarshalBinary()
-		if err != nil {
-			vfOracleFail("branchesrepos:encode-error", "MarshalBinary returned an error", map[string]any{"err": err.Error()})
+		var l []BranchRepos
+		if i < nd {
+			if i >= len(dBRs) {
+				continue
+			}
+			l = dBRs[i]
 		} else {
-			ps = append(ps, vfC26Pending{codec: "branchesrepos", kind: 12, in: enc, class: "valid", expBR: l, hasExp: true})
+			l = vfC26GenBR(r)
+		}
+		br := BranchesRepos{List: l}
+		enc, err, pan := vfC26Safe(br.MarshalBinary)
+		if pan != "" {
+			encPanics++
+			if encPanics <= 12 {
+				rp := vfC26BRReplay(l)
+				rp["panic"] = pan
+				vfOracleFail("branchesrepos:encode:panic", "BranchesRepos.MarshalBinary panics on a valid value: "+pan, rp)
+			}
+		} else if err != nil {
+			rp := vfC26BRReplay(l)
+			rp["err"] = err.Error()
+			vfOracleFail("branchesrepos:encode-error", "MarshalBinary returned an error", rp)
+		} else {
+			ps = append(ps, vfC26Pending{codec: "branchesrepos", kind: 12, in: enc, class: cls, expBR: l, hasExp: true})
 			if len(enc) < 400 {
 				addGarbage("branchesrepos", 2, enc)
 			}
@@ -465,7 +612,7 @@ func TestVerifC26(t *testing.T) {
 		}
 		vfCase(coq, key, len(p.in) > 3, []string{p.codec + "/" + p.class + "/" + rs.Class}, map[string]any{"codec": p.codec, "input_hex": hex, "class": rs.Class})
 	}
-	vfInfo(map[string]any{"query_classes": classes})
+	vfInfo(map[string]any{"query_classes": classes, "query_directed_values": len(dSets) + len(dBRs), "query_encode_panics": encPanics})
 }
 
 func vfC26PanicKind(msg string) string {
